@@ -36,6 +36,26 @@ Theorem C04_bounds_run :
 Proof. exact bounds_run. Qed.
 Print Assumptions C04_bounds_run.
 
+(* on a total order (antisymmetric), the moving maximum and minimum commute with every order embedding of the sample type
+   (positive scaling, translation, any strictly increasing map) *)
+From Signalo Require Proofs.OrderEmbed.
+Theorem C04_max_equivariant :
+  forall (T : Type) (leb : T -> T -> bool), total_preorder leb -> (forall a b, leb a b = true -> leb b a = true -> a = b) ->
+  forall f : T -> T, (forall a b, leb (f a) (f b) = leb a b) ->
+  forall n maxu, 1 <= n -> n + 1 <= maxu -> forall hist x,
+  exists s s' t t' y, oexec (max_step leb n maxu false) init hist = Some s /\ max_step leb n maxu false s x = Some (s', y) /\
+    oexec (max_step leb n maxu false) init (map f hist) = Some t /\ max_step leb n maxu false t (f x) = Some (t', f y).
+Proof. exact Signalo.Proofs.OrderEmbed.max_equivariant. Qed.
+Print Assumptions C04_max_equivariant.
+Theorem C04_min_equivariant :
+  forall (T : Type) (leb : T -> T -> bool), total_preorder leb -> (forall a b, leb a b = true -> leb b a = true -> a = b) ->
+  forall f : T -> T, (forall a b, leb (f a) (f b) = leb a b) ->
+  forall n maxu, 1 <= n -> n + 1 <= maxu -> forall hist x,
+  exists s s' t t' y, oexec (min_step leb n maxu false) init hist = Some s /\ min_step leb n maxu false s x = Some (s', y) /\
+    oexec (min_step leb n maxu false) init (map f hist) = Some t /\ min_step leb n maxu false t (f x) = Some (t', f y).
+Proof. exact Signalo.Proofs.OrderEmbed.min_equivariant. Qed.
+Print Assumptions C04_min_equivariant.
+
 (* The same from ANY well-formed state (reachable or injected through the public state fields,
    clock anywhere up to and including maxu) holding the window w. *)
 Theorem C04_max_from_wellformed :
